@@ -70,6 +70,7 @@ pub struct WebSocketFramed<T, C, E, D> {
     encode_item: PhantomData<E>,
     decode_item: PhantomData<D>,
     buffer: Option<BytesMut>,
+    failed: bool,
 }
 
 impl<T, C, E, D> Unpin for WebSocketFramed<T, C, E, D> {}
@@ -80,7 +81,7 @@ where
     C: Encoder<E, Error = anyhow::Error> + Decoder<Item = D, Error = anyhow::Error> + Unpin,
 {
     pub fn new(stream: WebSocketStream<T>, codec: C) -> Self {
-        Self { stream, codec, encode_item: PhantomData, decode_item: PhantomData, buffer: None }
+        Self { stream, codec, encode_item: PhantomData, decode_item: PhantomData, buffer: None, failed: false }
     }
 }
 
@@ -93,28 +94,35 @@ where
     type Item = Result<D>;
 
     fn poll_next(mut self: Pin<&mut Self>, cx: &mut Context<'_>) -> Poll<Option<Self::Item>> {
+        if self.failed {
+            // like FramedRead: nothing is decoded after a decode error
+            return Poll::Ready(None);
+        }
         loop {
+            // everything that has completely arrived is delivered before more input is awaited;
+            // a message may carry several frames, and a frame may span several messages
+            if let Some(mut buffer) = self.buffer.take() {
+                let decoded = self.codec.decode(&mut buffer);
+                if !buffer.is_empty() {
+                    self.buffer = Some(buffer);
+                }
+                match decoded {
+                    Ok(Some(item)) => return Poll::Ready(Some(Ok(item))),
+                    Ok(None) => {}
+                    Err(e) => {
+                        self.failed = true;
+                        return Poll::Ready(Some(Err(e)));
+                    }
+                }
+            }
             match ready!(self.stream.poll_next_unpin(cx)) {
                 Some(Ok(msg)) => {
                     if msg.is_binary() || msg.is_text() {
-                        let mut payload = match self.buffer.take() {
-                            Some(buffer) => {
-                                let msg_payload = msg.as_payload();
-                                let mut payload = BytesMut::with_capacity(buffer.len() + msg_payload.len());
-                                payload.extend_from_slice(&buffer);
-                                payload.extend_from_slice(msg_payload);
-                                payload
-                            }
-                            None => BytesMut::from(msg.into_payload()),
-                        };
-                        let decoded = self.codec.decode(&mut payload);
-                        if !payload.is_empty() {
+                        let msg_payload = msg.as_payload();
+                        if !msg_payload.is_empty() {
+                            let mut payload = self.buffer.take().unwrap_or_default();
+                            payload.extend_from_slice(msg_payload);
                             self.buffer = Some(payload);
-                        }
-                        match decoded {
-                            Ok(Some(item)) => return Poll::Ready(Some(Ok(item))),
-                            Ok(None) => return Poll::Pending,
-                            Err(e) => return Poll::Ready(Some(Err(e))),
                         }
                     }
                     continue;
